@@ -67,7 +67,7 @@ Section Natives.
     | NInt z => if 0 <=? z then JNum (NInt z) else JNum (negate_int z)
     | NFlt f => JNum (NFlt (fabs f))
     | NBig z => JNum (NBig (Z.abs z))
-    | NLit t => match t with 45%N :: r => JNum (NLit r) | _ => JNum (NLit t) end
+    | NLit t => if starts_minus t then JNum (NLit (tl t)) else JNum (NLit t)
     end.
   Definition f_abs (v : jv) : outcome jv :=
     match v with JNum n => Val (abs_num n) | _ => Err EFunc0Type end.
